@@ -688,14 +688,12 @@ func (p *Parser) parseBuffer(buf []byte, last bool) (err error) {
 			_ = p.add(v, off)
 			p.mode = valueMap
 		case charErr:
-			if 256 < len(p.mode) && p.mode[256] == 't' {
+			if 256 < len(p.mode) && p.mode[256] == 't' && !(p.OnlyOne && depth == 0) {
 				// A token read byte by byte ends here just as it does when it is
 				// scanned in one go, the byte is looked at again after the token.
+				// (A single top level token is followed by nothing but space.)
 				p.addToken(off)
 				off--
-				if p.OnlyOne {
-					continue
-				}
 				break // out of the switch, a value at depth zero is a complete document
 			}
 			return p.byteError(off, p.mode, b, bytes.Runes(buf[off:])[0])
